@@ -72,7 +72,8 @@ Proof. vm_compute. repeat split. Qed.
    content -- a trailing newline left by a shell or an editor, CR LF, blanks -- is invisible to it, whatever the content is
    (a file name, a legacy number, garbage) and whatever the listing holds.  So the pre-state of a crash may carry its
    pointer in any of these spellings (the fork-and-kill runs start from them) and the theorems above, which speak of
-   the pointer's VALUE, apply unchanged. *)
+   the pointer's VALUE, apply unchanged.  (This is a statement about the parser -- it is the justification of that harness
+   dimension; it is not composed with the commit machine above, whose `file w (w_ptr w)` is the reopen.) *)
 Theorem C03_pointer_spelling_invisible :
   forall (a l b : list HintPrim.cp) (es : list Hint.entry),
   HintPadProofs.all_space a -> HintPadProofs.all_space b ->
